@@ -1,9 +1,74 @@
 (* LinkerFacts3.v — offset (ignored), multi-period solve, the constructor, and the comparison of a linker that
    wraps a single model and adds no equations with that model solved directly (Solver.solve_t_M). *)
-From Coq Require Import ZArith List Bool Lia Arith.
+From Coq Require Import ZArith List Bool Lia Arith ZifyBool.
 Import ListNotations.
 Require Import PyBase Solver SolverFacts Linker LinkerFacts LinkerFacts2.
 Open Scope Z_scope.
+
+(* ======================= the two guards of solve_t ======================= *)
+(* for a t inside the span, the feasibility guard is the negation of Solver.feasible at t's position *)
+Lemma linker_infeasible_pos d n t p : py_pos n t = Some p -> linker_infeasible d n t = negb (feasible d n p).
+Proof.
+  unfold py_pos, linker_infeasible, feasible.
+  destruct ((t <? - Z.of_nat n) || (Z.of_nat n <=? t)) eqn:E; [discriminate|]. intros H; inversion H; subst; clear H.
+  destruct (t <? 0) eqn:Et; apply Bool.eq_true_iff_eq; split; intros HH; lia.
+Qed.
+(* a t outside the span passes the guard when lags, leads <= len(span) (the call then fails reading the check values,
+   or goes on if there are none); with longer lags / leads the guard's intervals reach outside the span too *)
+Lemma linker_infeasible_outside d n t : (lags d <= n)%nat -> (leads d <= n)%nat ->
+  py_pos n t = None -> linker_infeasible d n t = false.
+Proof.
+  intros Hl Hd. unfold py_pos, linker_infeasible. destruct ((t <? - Z.of_nat n) || (Z.of_nat n <=? t)) eqn:E; [|discriminate]. intros _.
+  destruct (t <? 0) eqn:Et; apply Bool.not_true_is_false; intros HH; lia.
+Qed.
+
+Section LGuards.
+  Variable num : Type.
+  Variables (sub : num -> num -> num) (absf : num -> num) (ltb : num -> num -> bool) (zero : num).
+  Variable sev : sid -> hook num.
+  Variables (pre ebefore eafter post : lhook num).
+  Notation solve_t := (linker_solve_t_M num sub absf ltb zero sev pre ebefore eafter post).
+  Notation body := (linker_solve_t_body num sub absf ltb zero sev pre ebefore eafter post).
+  Notation guard_t s t := (linker_infeasible (c_desc (l_core s)) (length (status (c_st (l_core s)))) t).
+
+  (* min_iter > max_iter: ValueError before anything is looked at or written (fix 97423a0; replaces the former
+     "never solved, 'F' stamped" behaviour) — whatever t, the selection (even unknown ids) and the state *)
+  Theorem linker_solve_t_min_gt_max sel o t s :
+    max_iter o < min_iter o -> solve_t sel o t s = (s, LRaise (LExn ValueError)).
+  Proof. intros H. unfold Linker.linker_solve_t_M. replace (max_iter o <? min_iter o) with true by lia. reflexivity. Qed.
+
+  (* a period without room for the linker's lags or leads: IndexError, nothing changed (fix a0fbb5c) — before the
+     selection is validated (an unknown id does not turn it into KeyError) and before any counter is zeroed *)
+  Theorem linker_solve_t_infeasible sel o t s :
+    min_iter o <= max_iter o -> guard_t s t = true -> solve_t sel o t s = (s, LRaise (LExn IndexError)).
+  Proof.
+    intros H G. unfold Linker.linker_solve_t_M. replace (max_iter o <? min_iter o) with false by lia. rewrite G. reflexivity.
+  Qed.
+  Corollary linker_solve_t_infeasible_pos sel o t p s :
+    min_iter o <= max_iter o -> py_pos (length (status (c_st (l_core s)))) t = Some p ->
+    (p < lags (c_desc (l_core s)) \/ length (status (c_st (l_core s))) <= p + leads (c_desc (l_core s)))%nat ->
+    solve_t sel o t s = (s, LRaise (LExn IndexError)).
+  Proof.
+    intros H Hp Hq. apply linker_solve_t_infeasible; [exact H|]. rewrite (linker_infeasible_pos _ _ _ _ Hp).
+    unfold feasible. apply negb_true_iff, andb_false_iff. destruct Hq; [left; apply Nat.leb_gt|right; apply Nat.ltb_ge]; lia.
+  Qed.
+
+  (* both guards passed: the call is its body *)
+  Lemma linker_solve_t_guards_passed sel o t s :
+    min_iter o <= max_iter o -> guard_t s t = false -> solve_t sel o t s = body sel o t s.
+  Proof.
+    intros H G. unfold Linker.linker_solve_t_M. replace (max_iter o <? min_iter o) with false by lia. rewrite G. reflexivity.
+  Qed.
+
+  (* the three ways a call can go *)
+  Lemma linker_solve_t_cases sel o t s :
+    solve_t sel o t s = (s, LRaise (LExn ValueError)) \/ solve_t sel o t s = (s, LRaise (LExn IndexError)) \/
+    (min_iter o <= max_iter o /\ guard_t s t = false /\ solve_t sel o t s = body sel o t s).
+  Proof.
+    unfold Linker.linker_solve_t_M. destruct (max_iter o <? min_iter o) eqn:E; [left; reflexivity|].
+    destruct (guard_t s t) eqn:G; [right; left; reflexivity|]. right; right. repeat split. lia.
+  Qed.
+End LGuards.
 
 (* ======================= offset and solve(): any oracles ======================= *)
 Section LOffset.
@@ -19,6 +84,7 @@ Section LOffset.
   Notation lloop := (lloop num sub absf ltb zero sev ebefore eafter post).
   Notation lfinish := (lfinish num).
   Notation solve_t := (linker_solve_t_M num sub absf ltb zero sev pre ebefore eafter post).
+  Notation body := (linker_solve_t_body num sub absf ltb zero sev pre ebefore eafter post).
   Notation solve := (linker_solve_M num sub absf ltb zero sev pre ebefore eafter post).
   Notation solve_fold := (solve_fold num sub absf ltb zero sev pre ebefore eafter post).
   Notation set_offset := (set_offset num).
@@ -52,13 +118,18 @@ Section LOffset.
   Qed.
 
   (* the linker never reads `offset`: every value of it — zero, in the span, outside the span — gives the same run *)
-  Theorem linker_offset_ignored sel o x t s : solve_t sel (set_offset o x) t s = solve_t sel o t s.
+  Lemma body_offset_ignored sel o x t s : body sel (set_offset o x) t s = body sel o t s.
   Proof.
-    unfold Linker.linker_solve_t_M. destruct (get_check_values num zero (sel_ids num sel s) t s) as [cur|e]; [|reflexivity].
+    unfold Linker.linker_solve_t_body. destruct (get_check_values num zero (sel_ids num sel s) t s) as [cur|e]; [|reflexivity].
     destruct (zero_iters num (sel_ids num sel s) t (l_subs s)) as [subs1 [e|]]; [reflexivity|].
     rewrite run_hook_set_offset. destruct (run_hook pre _ o t 0%nat (LPre t) _) as [s1 [e|]]; [reflexivity|].
     change (max_iter (set_offset o x)) with (max_iter o). rewrite lloop_set_offset.
     destruct (lloop _ o t _ 1%nat s1 cur) as [s2 st k|s2 e]; reflexivity.
+  Qed.
+  Theorem linker_offset_ignored sel o x t s : solve_t sel (set_offset o x) t s = solve_t sel o t s.
+  Proof.
+    unfold Linker.linker_solve_t_M. change (max_iter (set_offset o x)) with (max_iter o). change (min_iter (set_offset o x)) with (min_iter o).
+    rewrite body_offset_ignored. reflexivity.
   Qed.
 
   (* ---- solve(): the guard, and the fold of solve_t over the periods ---- *)
@@ -276,7 +347,8 @@ Section Single.
   Definition id_hook : hook num := fun _ _ _ _ v => (v, None).
   Definition id_lhook : lhook num := fun _ _ _ _ _ jv => (jv, None).
 
-  Notation lsolve := (linker_solve_t_M num sub absf ltb zero sev id_lhook id_lhook id_lhook id_lhook).
+  Notation lsolve := (linker_solve_t_body num sub absf ltb zero sev id_lhook id_lhook id_lhook id_lhook).
+  Notation lsolveM := (linker_solve_t_M num sub absf ltb zero sev id_lhook id_lhook id_lhook id_lhook).
   Notation msolve := (solve_t_M num sub absf ltb isfin zero ev id_hook id_hook).
   Notation iter_step := (iter_step num sev id_lhook id_lhook).
   Notation run_hook := (run_hook num).
@@ -423,7 +495,7 @@ Section Single.
        offset = 0 (ignored by the linker), every check vector finite (the linker has no error policy), no evaluation
        raises (the model wraps exceptions in SolutionError and records 'E', the linker lets them through), and the
        evaluation does not depend on the warning filter in force (Hagree). *)
-    Theorem single_model_linker_eq_model sel :
+    Theorem single_model_body_eq_model sel :
       sel = None \/ sel = Some [id] ->
       let rm := msolve d o t m0 in
       let rl := lsolve sel o t (mkL core1 [(id, mkComp d m0)] lg) in
@@ -467,4 +539,43 @@ Section Single.
         + rewrite nth_upd_eq by (rewrite Hmi; eapply py_pos_lt; exact Hms). reflexivity.
     Qed.
   End Run.
+
+  (* ---- the call as made, guards included (fixes 97423a0, a0fbb5c): no premise on min_iter / max_iter order or on the
+          feasibility of t any more.  What __init__ establishes for a linker over this one model: the linker's lags /
+          leads are the model's and the spans have the same length. ---- *)
+  Theorem single_model_linker_eq_model sel :
+    lags cd = lags d -> leads cd = leads d -> length cs = length ms ->
+    (min_iter o <= max_iter o -> 0 <= max_iter o) ->
+    offset o = 0 ->
+    (forall i, (1 <= i <= Z.to_nat (max_iter o))%nat -> snd (evk num ev o t i (st_after o t mv (i - 1))) = None) ->
+    (forall i, (i <= Z.to_nat (max_iter o))%nat ->
+       all_finite num isfin (chkseq num zero ev d o t p (get_check num zero d mv p) mv i) = true) ->
+    (forall i, (1 <= i <= Z.to_nat (max_iter o))%nat ->
+       sev id t (errors o) (catch_first o) i (st_after o t mv (i - 1)) = ev t (errors o) (catch_first o) i (st_after o t mv (i - 1))) ->
+    sel = None \/ sel = Some [id] ->
+    let rm := msolve d o t m0 in
+    let rl := lsolveM sel o t (mkL core1 [(id, mkComp d m0)] lg) in
+    let rejected := (max_iter o <? min_iter o) || negb (feasible d (length ms) p) in
+    snd rl = lout_of (snd rm) /\
+    l_subs (fst rl) = [(id, mkComp d (mkState (vals_of (fst rm)) (status (fst rm)) (iters (fst rm)) ml))] /\
+    status (c_st (l_core (fst rl))) = (if rejected then cs else upd p (nth p (status (fst rm)) Unsolved) cs) /\
+    iters (c_st (l_core (fst rl))) = (if rejected then ci else upd p (nth p (iters (fst rm)) 0) ci) /\
+    (rejected = true -> fst rl = mkL core1 [(id, mkComp d m0)] lg /\ fst rm = m0 /\
+                        snd rm = Raise (if max_iter o <? min_iter o then ValueError else IndexError)).
+  Proof.
+    intros Hlg Hld Hlen Hmax Hoff Hev Hfin Hagree Hsel rm rl rejected.
+    assert (Hg : linker_infeasible cd (length cs) t = negb (feasible d (length ms) p)).
+    { rewrite (linker_infeasible_pos cd (length cs) t p Hcs). unfold feasible. rewrite Hlg, Hld, Hlen. reflexivity. }
+    subst rm rl rejected. unfold Linker.linker_solve_t_M, Solver.solve_t_M.
+    cbn [l_core core1 c_desc c_st status m0]. rewrite Hg, Hms.
+    destruct (max_iter o <? min_iter o) eqn:Emm.
+    - cbn [orb fst snd lout_of l_subs l_core core1 c_st status iters vals_of m0]. repeat split.
+    - destruct (feasible d (length ms) p) eqn:Ef; cbn [negb orb].
+      + (* both guards passed: the body, under the premises of the finite regime *)
+        assert (Hmm : min_iter o <= max_iter o) by lia.
+        pose proof (single_model_body_eq_model Hmm (Hmax Hmm) Ef Hoff Hev Hfin Hagree sel Hsel) as HB.
+        cbv zeta in HB. unfold Solver.solve_t_M in HB. cbn [status m0] in HB. rewrite Emm, Hms, Ef in HB. cbn [negb] in HB.
+        destruct HB as (B1 & B2 & B3 & B4). split; [exact B1|]. split; [exact B2|]. split; [exact B3|]. split; [exact B4|discriminate].
+      + cbn [fst snd lout_of l_subs l_core core1 c_st status iters vals_of m0]. repeat split.
+  Qed.
 End Single.
